@@ -26,7 +26,8 @@ LAYOUTS = {
     "short-last": dict(E=2, sessions=[("root", [("train", 5), ("test", 1)])]),
     "singles": dict(E=1, sessions=[("root", [("train", 3)])]),
     "nested": dict(E=2, sessions=[("root", [("train", 3), ("test", 2)]), ("sub:a", [("train", 2)]), ("sub:a/c", [("train", 1)])]),
-    "multi": dict(E=2, sessions=[("multi", [("train", 3)], [("train", 2), ("test", 1)])]),
+    "multi": dict(E=2, sessions=[("multi", [("train", 3), ("test", 1)], [("train", 2), ("test", 2)])]),
+    "multi3": dict(E=1, sessions=[("root", [("train", 1)]), ("multi", [("train", 1), ("test", 1)], [("test", 1), ("train", 2)], [("train", 1)])]),
     "three-splits": dict(E=2, sessions=[("root", [("train", 2), ("test", 2), ("holdout", 3)])]),
     "four-shards": dict(E=1, sessions=[("root", [("train", 4)])]),
     "five-shards": dict(E=2, sessions=[("root", [("train", 9)]), ("sub:b", [("test", 1)])]),
@@ -149,8 +150,15 @@ class StubExecutor:
                 yield val
         return gen()
 
-    def submit(self, *a, **k):
-        raise Inconclusive("ThreadPoolExecutor.submit is not modelled by the executor contract stub")
+    def submit(self, fn, *a, **k):
+        # contract: the call happens at some time after submit; here: immediately.  The future is a real one.
+        from concurrent.futures import Future
+        f = Future()
+        try:
+            f.set_result(fn(*a, **k))
+        except Exception as exc:  # noqa: BLE001
+            f.set_exception(exc)
+        return f
 
     def shutdown(self, *a, **k):
         pass
